@@ -161,8 +161,8 @@ def pipe_sections_from_results(net):
         fwd = m > 0
         t_in = float(r.t_from_k) if fwd else float(r.t_to_k)
         chain = [t_in] + (ints if fwd else ints[::-1])
-        if fwd:
-            chain.append(float(r.t_outlet_k))
+        # t_outlet_k is the outlet in flow direction (last section for forward, first section for reverse flow)
+        chain.append(float(r.t_outlet_k))
         alpha = float(row.u_w_per_m2k)
         d_o = float(row.outer_diameter_mm) if "outer_diameter_mm" in row and np.isfinite(row.outer_diameter_mm) \
             else float(row.inner_diameter_mm)
